@@ -29,7 +29,7 @@ LEVEL = "fault_enumeration"
 RULE = (
     "All combinations of script (10: plain, Servo, parallel LCD, I2C LCD, several libraries, rejected by the parser, ...) x "
     "(platform, board) class (2 valid, mismatched, unknown board, unknown platform) x upload x PlatformIO state (present, "
-    "missing executable, failing executable) x single fault point (none, script file unreadable, __main__ without "
+    "missing executable, failing executable; failing tools exit with 1, 2, 127, 255, -2, -9, -15 or cannot be started) x single fault point (none, script file unreadable, __main__ without "
     "__file__, mkdtemp fails, mkdir fails, 1st write fails, 2nd write fails, build fails, upload fails) are enumerated; "
     "Hypothesis adds random ports and double faults. Oracle = reference model written from the statement. "
     "Non-trivial = case with an injected fault, upload=True, an invalid pair, absent PlatformIO or a script needing a library; "
@@ -73,6 +73,14 @@ class _Tool(subprocess.CalledProcessError):
     pass
 
 
+class _InjectedTool(OSError):
+    pass
+
+
+# exit statuses of a failing tool: ordinary errors, shell conventions, and negative values (killed by SIGINT / SIGKILL / SIGTERM)
+RCS = [1, 2, 127, 255, -2, -9, -15, "oserror"]
+
+
 def drive(case):
     """Run target() under the recording harness; return observation dict."""
     import Reduino
@@ -110,9 +118,12 @@ def drive(case):
             rec["fired"].add("upload")
             fail = True
         if fail:
+            rc = case.get("rc", 1)
+            if rc == "oserror":  # the tool could not be started at this point (permissions, exec format, ...)
+                raise _Tool(126, cmd) if cmd == ["pio", "--version"] else _InjectedTool(errno.EACCES, "injected: cannot execute pio")
             if check:
-                raise _Tool(1, cmd)
-            return subprocess.CompletedProcess(cmd, 1)
+                raise _Tool(rc, cmd)
+            return subprocess.CompletedProcess(cmd, rc)
         return subprocess.CompletedProcess(cmd, 0, stdout=b"", stderr=b"")
 
     def fake_check_call(cmd, **kw):
@@ -264,11 +275,11 @@ def model_and_compare(case):
     want_runs = [("pio", "run"), ("pio", "run", "-t", "upload")] if case["upload"] else []
     if case["upload"] and "build" in faults:
         want_runs = want_runs[:1]
-        if not isinstance(exc, _Tool):
-            bad("build-failure-swallowed", "CalledProcessError propagates", desc)
+        if not isinstance(exc, (_Tool, _InjectedTool)):
+            bad("build-failure-swallowed", "the tool's failure (CalledProcessError / OSError) propagates", desc)
     elif case["upload"] and "upload" in faults:
-        if not isinstance(exc, _Tool):
-            bad("upload-failure-swallowed", "CalledProcessError propagates", desc)
+        if not isinstance(exc, (_Tool, _InjectedTool)):
+            bad("upload-failure-swallowed", "the tool's failure (CalledProcessError / OSError) propagates", desc)
     else:
         if kind != "return":
             bad("unexpected-exception", "returns the firmware source", desc)
@@ -319,7 +330,8 @@ def plan(tier):
 
 def all_cases():
     for s, p, u, pio, f in itertools.product(SCRIPTS, PAIRS, [False, True], PIO, FAULTS):
-        yield {"script": s, "pair": p, "upload": u, "pio": pio, "faults": [] if f == "none" else [f], "port": "COM3"}
+        for rc in (RCS if (f in ("build", "upload") or pio == "failing") else [1]):
+            yield {"script": s, "pair": p, "upload": u, "pio": pio, "faults": [] if f == "none" else [f], "port": "COM3", "rc": rc}
 
 
 def run_shard(name, seed, tier, **kw):
@@ -347,7 +359,7 @@ def run_shard(name, seed, tier, **kw):
                         st.text(alphabet="abcXYZ019/._-:=;%# ", min_size=1, max_size=12).map(str.strip).filter(bool))
     case_st = st.fixed_dictionaries({
         "script": st.sampled_from(sorted(SCRIPTS)), "pair": st.sampled_from(sorted(PAIRS)), "upload": st.booleans(),
-        "pio": st.sampled_from(PIO), "faults": st.lists(st.sampled_from(FAULTS[1:]), max_size=3, unique=True), "port": port_st})
+        "pio": st.sampled_from(PIO), "faults": st.lists(st.sampled_from(FAULTS[1:]), max_size=3, unique=True), "port": port_st, "rc": st.sampled_from(RCS)})
 
     @hseed(seed)
     @hyp_settings(kw["n"])
